@@ -36,6 +36,8 @@ type Prop struct {
 	Workers int
 	// MaxSamples kept in evidence (default 6).
 	MaxSamples int
+	// Extra adds property-specific keys to the evidence coverage (runs in the parent after aggregation).
+	Extra func(a *Agg) map[string]any
 	// Setup is called once in every worker before any case (optional).
 	Setup func(tier string, seed uint64)
 }
